@@ -260,6 +260,22 @@ def run_reprs(_):
     a, b2 = R(), R()
     a.me, b2.me = b2, a
     cases.append(("mutual reference", a))
+    # self-reference through every container kind of the grammar (each container's own repr must bound the recursion)
+    from spec_classes.types import KeyedList as _KL, KeyedSet as _KS
+    for label, mk in (("KeyedSet", lambda: _KS(key=id)), ("KeyedList", lambda: _KL(key=id))):
+        o = R()
+        box = mk()
+        (box.add if label == "KeyedSet" else box.append)(o)
+        o.me = box
+        cases.append((f"self in {label}", o))
+        o = R()
+        box = mk()
+        o.kids = [box]
+        (box.add if label == "KeyedSet" else box.append)(o)
+        cases.append((f"self in {label} in list", o))
+    o = R()
+    o.me = (o, [o])
+    cases.append(("self in tuple", o))
     # children rendered inside a parent (compact and indented forms): every slot x child kind x padding that forces indentation
     @spec_class(key="k", bootstrap=True)
     class K:
